@@ -34,7 +34,7 @@ func TestC02(t *testing.T) {
 	r.ForEach("history", n, 8, func(i int, rng *rand.Rand) {
 		sb := e2e.NewSandbox(filepath.Join(r.Scratch(), fmt.Sprintf("h%d", i)))
 		defer lib.RemoveAll(sb.Work)
-		state := e2e.Generate(rng, e2e.GenOpts{Tools: true, DirOuts: true})
+		state := e2e.Generate(rng, e2e.GenOpts{Tools: true, DirOuts: true, PostBuild: true})
 		state.VLog = sb.VLog
 		compress := i%2 == 1
 		state.Config = strings.Replace(state.Config, "[cache]\ndir =\n", "", 1) + fmt.Sprintf("\n[cache]\ndir = %s\ndircompress = %v\ndirclean = false\nworkers = %d\n", sb.Cache, compress, []int{0, 0, 2}[rng.Intn(3)])
